@@ -506,7 +506,9 @@ class CallsMixin:
             arr = fresh('bytes.arr', ArrII); k = fresh('k!b')
             st.assume(z3.ForAll([k], z3.Implies(z3.And(0 <= k, k < v.len), z3.Select(arr, k) == z3.Select(v.arr, v.off + k))))
             st.meta['fresh_arrs'] = set(st.meta.get('fresh_arrs', set())) | {arr.get_id()}
-            return SliceV([arr], z3.IntVal(0), v.len, v.len, self.tt[to_tid]['e'], z3.BoolVal(False))
+            r = SliceV([arr], z3.IntVal(0), v.len, v.len, self.tt[to_tid]['e'], z3.BoolVal(False))
+            r.of_str = v
+            return r
         if tk == 'iface':
             if isinstance(v, IfaceV): return v
             return self.box(st, v, from_tid)
